@@ -80,3 +80,10 @@ PROPS.update({
             "floors": {"quick": {"distinct_nontrivial": 300, "obs.elevation_points": 200000, "obs.schedule_equality": 5000, "obs.noncontiguous_rejected_with_err": 1000},
                        "thorough": {"distinct_nontrivial": 20000, "obs.routes": 200000}}},
 })
+
+PROPS["C16"] = {"level": "fault_enumeration", "exhaustive": True,
+    "technique": "fault enumeration under a runtime monitor: every listed validation rule broken in isolation at every link of each generated valid network, through every load path (validate, from_json, from_yaml, from_file); oracle = error value for faults, Ok for valid networks, equality for the legacy layout; panics observed via catch_unwind + panic hook",
+    "level_text": "For each generated network the set of single-fault mutations (rule x link x load path) is enumerated completely; the verdict per fault does not depend on an independent validator (the injected fault is one the statement lists). Network shapes themselves are sampled, so the claim is exhaustive per network, exploratory across networks.",
+    "level_note": "Trusted: the fault injector (harness/src/mon/netval.rs) really produces the fault it names and nothing else; serde_json/serde_yaml. Assumed: generator family of DESIGN.md section 3.",
+    "floors": {"quick": {"distinct_nontrivial": 100, "obs.faults_injected": 20000, "obs.faults_rejected_with_error_value": 50000, "obs.legacy_layout_loads": 20, "obs.fault.coincident_switch_points": 20},
+               "thorough": {"distinct_nontrivial": 4000, "obs.faults_injected": 1000000}}}
